@@ -256,6 +256,11 @@ def unary_ops(b, sp):
         ops.append(("V3", f"fuse{gname}.conj.unfuse_all", m("conj"), fu_conj))
         ops.append(("V3", f"fuse{gname}.transpose.unfuse_all", m("transpose"), fu_tr))
         ops.append(("V3", f"fuse{gname}.reshape(back)", m("reshape"), fu_reshape))
+    if nd >= 2:
+        # an empty group asks for a new unit axis at that position (expand_empty), also for fermionic arrays
+        ops.append(("V3", "fuse(0,1),() [empty group expanded]", m("fuse"), lambda ev, x: w.meth(ev, x, "fuse", (0, 1), ())))
+        ops.append(("V3", "fuse(),(1,0) [empty group first]", m("fuse"), lambda ev, x: w.meth(ev, x, "fuse", (), (1, 0))))
+        ops.append(("V3", "fuse(0,1),() expand_empty=False", m("fuse"), lambda ev, x: w.meth(ev, x, "fuse", (0, 1), (), expand_empty=False)))
     if sp.fermionic:
         first = (sp.sectors() or [None])[0]
         ops += [
@@ -416,8 +421,8 @@ def chains(b, sp, first_ops, second_for):
             b.run("V7", f"{n1} ; {n2}", a2, sp, prog2, refusal_ok=True)
 
 
-CHAIN_SKIP_FIRST = (" mode=", "constructor", "inplace", ".unfuse", "multiply_diagonal", "one session", ".fuse(all)", ".reshape", ".conj.", ".transpose.", "squeeze", "odd charge", "copy")
-CHAIN_SKIP_SECOND = (" mode=", "constructor", "inplace", "phase_sector", "multiply_diagonal", "one session", ".fuse(all)", ".reshape", ".conj.", ".transpose.", "(each)", "odd charge", "copy")
+CHAIN_SKIP_FIRST = (" mode=", "constructor", "empty group", "expand_empty", "inplace", ".unfuse", "multiply_diagonal", "one session", ".fuse(all)", ".reshape", ".conj.", ".transpose.", "squeeze", "odd charge", "copy")
+CHAIN_SKIP_SECOND = (" mode=", "constructor", "empty group", "expand_empty", "inplace", "phase_sector", "multiply_diagonal", "one session", ".fuse(all)", ".reshape", ".conj.", ".transpose.", "(each)", "odd charge", "copy")
 
 
 def _job(state, job):
